@@ -100,7 +100,7 @@ EvRet ==
 EvEnd == /\ E.t = "end" /\ R' = R
          /\ bad' = bad \cup Flag("C11_TotalResult", E.hung = 0 \/ R.stall # -1)
                        \cup Flag("C14_Bounded", E.hung = 0)
-EvOther == /\ E.t \in {"conn", "advance", "peer_content"} /\ R' = R /\ bad' = bad
+EvOther == /\ E.t \in {"conn", "advance", "peer_content", "pool"} /\ R' = R /\ bad' = bad
 \* MX relay: hosts sorted by preference, the one tried is chosen by the attempt number
 EvMx == /\ E.t = "mx" /\ R' = R /\ bad' = bad \cup Flag("C11_MxChoice", E.n >= 1 /\ E.rank = E.attempts % E.n)
 \* model replay (drivers/c11m.py): the real relay held another conversation / returned another result than spec/RelayClient.tla
